@@ -80,7 +80,19 @@ class Check(object):
         (3) audit forbidden constructs and axioms.  Returns True when all three are fine.
         A failure is *not* a violation by itself: the caller goes on to search for a failing input."""
         from harness import leantool
-        res = leantool.stage(module, extract=extract, exe=exe)
+        modules = module if isinstance(module, (list, tuple)) else [module]
+        res = None
+        for i, m in enumerate(modules):
+            r = leantool.stage(m, extract=extract and i == 0, exe=exe and i == 0)
+            if res is None:
+                res = r
+            else:
+                res['ok'] = res['ok'] and r['ok']
+                res['module'] = res['module'] + ' ' + r['module']
+                res['theorems'] = list(res['theorems']) + list(r['theorems'])
+                res['axioms'].update(r['axioms'])
+                for k in ('broken', 'extract_errors', 'audit', 'log_tail'):
+                    res[k] = list(res.get(k) or []) + list(r.get(k) or [])
         self.lean = res
         return res['ok']
 
